@@ -15,9 +15,21 @@ O2 = z3.Const("o2", T.Opt)
 SELF = z3.Const("self", T.Ev)
 
 # class invariants established by constructors (sidecar; each is an obligation on __init__ elsewhere)
+def _template_inv(s):
+    """every ':name:' placeholder of the text is bound by a parameter (Template.__init__ raises ValueError otherwise): obligation Template:init"""
+    k = z3.Const("k!inv", T.Key)
+    tpl = z3.Function("fld!Template.template", T.Ev, T.Val)(s)
+    hasp = z3.Function("fld!Template.params#has", T.Ev, T.Val, T.B)
+    return [z3.ForAll([k], z3.Implies(z3.And(z3.IsMember(k, T.tkeys(tpl)), T.isparam(k)), hasp(s, T.val_of_key(T.pname(k)))),
+                      patterns=[z3.IsMember(k, T.tkeys(tpl))])]
+
+
 CLASS_INV = {
     "Coalesce": lambda s: [z3.Function("fld!Coalesce.members#n", T.Ev, T.I)(s) >= 1],
+    "Template": _template_inv,
 }
+# theory only some classes need (kept out of the other proofs)
+CLASS_THEORY = {"Template": lambda: T.template_axioms()}
 
 # per-class executor configuration: which temporaries are used through their class contract
 ABSTRACT = {
@@ -87,11 +99,12 @@ def _region_withoptions_explain():
     return [z3.Implies(force, T.noshadow(P, O1))]
 
 
+REGIONS["Template"] = [("F31", "an option value that refers to a ':name:' parameter of the template (A-noparam)", lambda: [T.noparam(O1), T.noparam(O2)])]
 REGIONS["WithOptions"] = [
     ("F24", "a scalar in the caller's options where the default options hold a section (the scalar shadows the defaults below it)",
      _region_withoptions_defaults, None),
     ("F24", "a pre-set scalar where the caller's options hold a section: explain lists caller keys the pre-set scalar hides",
-     _region_withoptions_explain, ("L5", "L5b")),
+     _region_withoptions_explain, ("L5", "L5b", "L6k")),
 ]
 
 
@@ -182,7 +195,24 @@ def option_contract_facts(t, kterm, o):
         T.EXok(t, o),
         z3.ForAll([q], z3.IsMember(q, T.EXset(t, o)) == z3.Or(q == kterm, z3.And(T.has(o, kterm), z3.IsMember(q, T.TXset(g, o)))), patterns=[z3.IsMember(q, T.EXset(t, o))]),
         z3.Implies(T.has(o, kterm), T.subsetP(T.TXset(g, o), T.EXset(t, o))),
-    ]
+    ] + option_value_facts(t, kterm, o)
+
+
+def option_value_facts(t, kterm, o):
+    """evaluate/validate of an Option WITHOUT default, domain and declared type: the looked-up value with its references substituted
+    (proved on the real bodies: group Option:contract)"""
+    g = T.get(o, kterm)
+    ok = z3.And(T.has(o, kterm), T.resolve_ok(g, o))
+    rx = T.resolve_exc(g, o)
+    out = [T.EVok(t, o) == ok, T.VLok(t, o) == ok, z3.Implies(ok, T.EVval(t, o) == T.resolve_val(g, o))]
+    for x in (T.EVexc(t, o), T.VLexc(t, o)):
+        out += [
+            z3.Implies(z3.Not(T.has(o, kterm)), z3.And(T.is_cls["KeyNotFoundError"](x), T.missing(x), T.mkey(x) == kterm, T.exc_key(x) == kterm)),
+            z3.Implies(z3.And(T.has(o, kterm), z3.Not(T.resolve_ok(g, o)), T.is_cls["KeyError"](rx)),
+                       z3.And(T.is_cls["KeyNotFoundError"](x), T.missing(x), T.mkey(x) == T.exc_key(rx), T.exc_key(x) == T.exc_key(rx))),
+            z3.Implies(z3.And(T.has(o, kterm), z3.Not(T.resolve_ok(g, o)), z3.Not(T.is_cls["KeyError"](rx))), z3.And(z3.Not(T.missing(x)), z3.Not(T.is_cls["KeyNotFoundError"](x)))),
+        ]
+    return out
 
 
 def temp_contract(ex, obj, t):
@@ -229,6 +259,8 @@ class Runs:
         from .cache_model import sound_backend
         self.config = {"abstract_classes": ABSTRACT.get(ci.name, ABSTRACT["default"]), "temp_contract": temp_contract,
                        "cache_model": sound_backend, "fn_contracts": FN_CONTRACTS, "reentry_limit": {"WithOptions": 3}}
+        if ci.name == "Template":
+            self.config["option_contract"] = [O1, O2]
         if extra_config:
             self.config.update(extra_config)
 
@@ -251,6 +283,8 @@ def base(ci, which=("L1", "L2", "L3", "L4a", "L5", "L5d", "L6", "L6v")):
     inv = CLASS_INV.get(ci.name)
     if inv:
         hyps += inv(SELF)
+    if ci.name in CLASS_THEORY:
+        hyps += CLASS_THEORY[ci.name]()
     hyps += region_hyps(ci.name)
     return hyps
 
@@ -380,6 +414,13 @@ def law_vcs(repo, ci, laws=("L1", "L2", "L3", "L6", "L6v", "L4a", "L5", "L5d", "
                 if e.kind == "exc" and bad:
                     vcs.append(VC(f"{C}:L6:user-exception-never-reported-as-missing-option:{meth}#{j}", hyp + e.pc + e.defs, z3.BoolVal(False),
                                   {"law": "L6", "cls": C}))
+    if "L6k" in laws:
+        hk = hyp + T.child_laws(("L6k",)) + extra_region(ci, "L6k")
+        for meth, ps in (("evaluate", E1), ("validate", V1), ("keys", K1)):
+            for j, e in enumerate(ps or []):
+                if e.kind == "exc" and not after_return(e):
+                    x = exc_term(e)
+                    vcs.append(VC(f"{C}:L6k:{meth}#{j}", hk + e.pc + e.defs, z3.Implies(T.missing(x), z3.Not(T.has(O1, T.mkey(x)))), {"law": "L6k", "cls": C}))
     if "L6v" in laws:
         for meth, ps, cls in (("validate", V1, "EvaluationError"), ("keys", K1, "EvaluationError"), ("explain", X1, "InsufficientInformationError")):
             if ps is None:
